@@ -33,7 +33,13 @@ namespace chaiscript::dispatch::detail {
 
     Ret call(const chaiscript::Function_Params &params, const Type_Conversions_State &t_state) {
       if constexpr (std::is_arithmetic_v<Ret> && !std::is_same_v<std::remove_cv_t<std::remove_reference_t<Ret>>, bool>) {
-        return Boxed_Number(dispatch::dispatch(m_funcs, params, t_state)).get_as<Ret>();
+        const Boxed_Value result = dispatch::dispatch(m_funcs, params, t_state);
+        try {
+          return Boxed_Number(result).get_as<Ret>();
+        } catch (const chaiscript::detail::exception::bad_any_cast &) {
+          // the script function returned something that is not a number: report it like every other failed conversion
+          throw chaiscript::exception::bad_boxed_cast(result.get_type_info(), typeid(Ret));
+        }
       } else if constexpr (std::is_same_v<void, Ret>) {
         dispatch::dispatch(m_funcs, params, t_state);
       } else {
